@@ -9,7 +9,7 @@ import (
 func init() { register("C01", propC01) }
 
 func propC01(c *Ctx) {
-	c.Explanation = "Decides structural necessary conditions of the byte-stream property for all inputs and schedules: (R1) the segment invariant 'first byte of data has sequence number sequenceNumber' - every front trim of a segment's data is paired, under the same guards and with the same amount, with an advance of that segment's sequence number (receiver trim of already-received bytes, sender split at window/MSS boundaries, sender partial-ACK trim); (R2) ownership for all schedules: every access to sender/receiver state happens with endpoint.workMu held (must-lockset with held-at-entry fixpoint over the call graph; frozen entry assumptions for the worker goroutines; three reviewed cut edges/exceptions), and the queues shared with the application (rcvList/rcvBufUsed/..., sndQueue/sndBufUsed/..., segmentQueue) are touched only under their mutexes; (R3) hand-off discipline: the complete reviewed site tables of receiver.consumeSegment, receiver.handleRcvdSegment, endpoint.readyToRead, readLocked and the sender's split/advance sites - data reaches the reader only through readyToRead(PushBack) from consumeSegment, exactly when the segment contains rcvNxt, rcvNxt advances by exactly the bytes handed over, parked segments are consumed with their own sequence number and length, the reader takes the front segment view by view; (R4) no raw ordering of sequence numbers in package tcp. (R5) link typestate: no function reads the list links of a segment after removing it from its list unless segmentList.Remove preserves the removed element's links, so cursor fix-ups such as writeNext = seg.Next() yield the true successor; the sender's sequence variables start at iss+1 (newSender rows of R3). (R6) a segment's sequence-space length is payload + SYN + FIN, all four flag combinations on their own paths (shared with C03/H8, C02/W7); R3 also tables segment.clone (sequence number, flags, own view list), segment.parse (fields from the header getters, payload after the data offset) and the receiver's first expected byte irs+1. (R7) the out-of-order heap's container/heap implementation and the segment reference counter are exactly the reviewed ones. (R8) the generated segment list is a correct doubly-linked list; R3 also holds Write's queueing row (non-empty payload, buffer room). (R9) the connection worker leaves its loop only after the receive side is closed, the send side is closed and every queued byte is acknowledged (shared with C02/W5). (R11) an acceptable ACK moves sndUna to the acknowledgement number, measures the acknowledged amount from the old edge and removes exactly the fully acknowledged segments from the write list; (R12) out-of-order segments are parked and drained with their own sequence-space length and reference, a FIN discards what is parked; (R13) data handed to the reader holds a reference and wakes the reader, the reader releases a segment after its last view. (R14) the inbound segment queue is FIFO and charges every segment a positive amount, credited by the same amount on removal; (R15) the first sequence numbers of every connection come from the handshake, the SYN or the cookie ACK as tabled, at every construction site of the module. NOT decided: that acceptance, trimming amounts, heap order and retransmission produce the right bytes over all fault schedules (numerical relations between runtime values), nothing about the peer or the wire."
+	c.Explanation = "Decides structural necessary conditions of the byte-stream property for all inputs and schedules: (R1) the segment invariant 'first byte of data has sequence number sequenceNumber' - every front trim of a segment's data is paired, under the same guards and with the same amount, with an advance of that segment's sequence number (receiver trim of already-received bytes, sender split at window/MSS boundaries, sender partial-ACK trim); (R2) ownership for all schedules: every access to sender/receiver state happens with endpoint.workMu held (must-lockset with held-at-entry fixpoint over the call graph; frozen entry assumptions for the worker goroutines; three reviewed cut edges/exceptions), and the queues shared with the application (rcvList/rcvBufUsed/..., sndQueue/sndBufUsed/..., segmentQueue) are touched only under their mutexes; (R3) hand-off discipline: the complete reviewed site tables of receiver.consumeSegment, receiver.handleRcvdSegment, endpoint.readyToRead, readLocked and the sender's split/advance sites - data reaches the reader only through readyToRead(PushBack) from consumeSegment, exactly when the segment contains rcvNxt, rcvNxt advances by exactly the bytes handed over, parked segments are consumed with their own sequence number and length, the reader takes the front segment view by view; (R4) no raw ordering of sequence numbers in package tcp. (R5) link typestate: no function reads the list links of a segment after removing it from its list unless segmentList.Remove preserves the removed element's links, so cursor fix-ups such as writeNext = seg.Next() yield the true successor; the sender's sequence variables start at iss+1 (newSender rows of R3). (R6) a segment's sequence-space length is payload + SYN + FIN, all four flag combinations on their own paths (shared with C03/H8, C02/W7); R3 also tables segment.clone (sequence number, flags, own view list), segment.parse (fields from the header getters, payload after the data offset) and the receiver's first expected byte irs+1. (R7) the out-of-order heap's container/heap implementation and the segment reference counter are exactly the reviewed ones. (R8) the generated segment list is a correct doubly-linked list; R3 also holds Write's queueing row (non-empty payload, buffer room). (R9) the connection worker leaves its loop only after the receive side is closed, the send side is closed and every queued byte is acknowledged (shared with C02/W5). (R11) an acceptable ACK moves sndUna to the acknowledgement number, measures the acknowledged amount from the old edge and removes exactly the fully acknowledged segments from the write list; (R12) out-of-order segments are parked and drained with their own sequence-space length and reference, a FIN discards what is parked; (R13) data handed to the reader holds a reference and wakes the reader, the reader releases a segment after its last view. (R14) the inbound segment queue is FIFO and charges every segment a positive amount, credited by the same amount on removal; (R15) the first sequence numbers of every connection come from the handshake, the SYN or the cookie ACK as tabled, at every construction site of the module. (R16) a new segment holds the whole payload it was made from: every view of an inbound packet however many there are (Clone, which allocates beyond the inline array), the one view of a write with its own length; one reference, the id, its own route reference. NOT decided: that acceptance, trimming amounts, heap order and retransmission produce the right bytes over all fault schedules (numerical relations between runtime values), nothing about the peer or the wire."
 	c.Assumptions = []string{
 		"newEndpoint returns with workMu locked; protocolMainLoop/protocolListenLoop own it from their first instruction (frozen entry assumption, rule R2-entry)",
 		"field loads of sender/receiver state are stable while workMu is held",
@@ -177,6 +177,7 @@ func propC01(c *Ctx) {
 
 	segmentQueueRule(c, c.Rule("R14", "K7 closed site tables (shared with C02/W15, C05/L10)", "the inbound segment queue is FIFO: PushBack on enqueue, Front/Remove on dequeue, the removed head is what is returned", 7))
 	initialSequenceProvenanceRule(c, c.Rule("R15", "K3 closed call-site table (module-wide)", "the first sequence numbers of every connection come from the handshake / the SYN / the cookie ACK as tabled, at every construction site", 6))
+	segmentConstructorRule(c, c.Rule("R16", "K7 closed site tables", "a new segment holds the whole payload it was made from: every view of an inbound packet (however many), the one view of a write; one reference, the id, its own route reference", 11))
 	// ---- R9 (shared with C02/W5)
 	mainLoopExitRule(c, c.Rule("R9", "K5 (shared with C02/W5)", "the connection worker keeps receiving until the receive side is closed too", 3))
 
